@@ -86,8 +86,13 @@ def sig_round(x, digits):
     return Fr(round(x / q)) * q
 
 
+# gradient rasters: whole microseconds and rasters that are NOT a whole number of microseconds (6.4, 2.5, 12.5 us)
+RASTERS = [Fr(4, 10 ** 6), Fr(5, 10 ** 6), Fr(10, 10 ** 6), Fr(20, 10 ** 6), Fr(10, 10 ** 6),
+           Fr(64, 10 ** 7), Fr(25, 10 ** 7), Fr(125, 10 ** 7)]
+
+
 def make_system(rng):
-    R = rng.choice([Fr(4, 10 ** 6), Fr(5, 10 ** 6), Fr(10, 10 ** 6), Fr(20, 10 ** 6)])
+    R = rng.choice(RASTERS)
     MG = 100 * rng.randint(1000, 30000)
     nr = rng.choice([rng.uniform(2.5, 12), rng.uniform(5, 30), rng.uniform(20, 60)])
     MS = 100 * max(1, round(float(Fr(99, 100) * MG / (Fr(nr) * R * Fr(99, 100))) / 100))
@@ -142,7 +147,7 @@ def gen_case(rng, tier, boundary=False):
         if not ceil_args_safe(MG, MS, R, gs, ge):
             continue
         a1 = mg * mg / (2 * ms)                         # area reachable by one ramp 0 -> limit
-        kind = rng.choice(['zero', 'tiny', 'frac', 'direct', 'shape', 'shape', 'shape', 'multi', 'multi', 'multi'])
+        kind = rng.choice(['zero', 'tiny', 'frac', 'frac', 'direct', 'shape', 'shape', 'shape', 'multi', 'multi'])
         sgn = rng.choice([-1, 1])
         if kind == 'zero':
             A = Fr(0)
@@ -166,8 +171,8 @@ def gen_case(rng, tier, boundary=False):
             A = ((gs + gm) / 2 * nu + gm * nf + (gm + ge) / 2 * ndn) * R
             A = A * (1 + Fr(rng.choice([0, 1e-7, -1e-7, 1e-5, -1e-5, 1e-3, -1e-3, 1e-2, -1e-2, 0.05, -0.05])))
         else:
-            top = 150 if big else 25
-            A = sgn * a1 * Fr(rng.choice([rng.uniform(1, 5), rng.uniform(2, 12), rng.uniform(5, top)]))
+            top = 150 if big else 7
+            A = sgn * a1 * Fr(rng.choice([rng.uniform(1, 4), rng.uniform(2, 12 if big else 6), rng.uniform(4, top)]))
         A = sig_round(A, 6)
         case = {'kind': ('boundary-' if boundary else '') + kind, 'rel': rel, 'MG': str(MG), 'MS': str(MS), 'R': dstr(R),
                 'gs': dstr(gs), 'ge': dstr(ge), 'A': dstr(A)}
@@ -175,7 +180,103 @@ def gen_case(rng, tier, boundary=False):
     raise RuntimeError('generator starved')
 
 
-def corpus():
+def _finish_case(kind, rel, MG, MS, R, gs, ge, A):
+    return {'kind': kind, 'rel': rel, 'MG': str(MG), 'MS': str(MS), 'R': dstr(R), 'gs': dstr(gs), 'ge': dstr(ge),
+            'A': dstr(sig_round(A, 7))}
+
+
+def cross_case(MG, MS, R, s, f, lam, which, d0, delta, sigma, offset):
+    """End points of equal sign near the limit (gs = s f mg, the other end lam times that), and the area of the
+    two-ramp gradient of d0 raster steps that leaves the end points towards zero and beyond with slope sigma * 99% max_slew
+    (split d0//2 + delta): the optimum lies above the ramp-to-zero duration that bounds the linear search, in the region
+    where odd/even durations alternate between feasible and infeasible (dead spaces of the binary search)."""
+    mg = Fr(99, 100) * MG
+    ms = Fr(99, 100) * MS
+    g = Fr(round(s * f * float(mg)))
+    g2 = Fr(round(float(g) * lam))
+    gs, ge = (g, g2) if which == 0 else (g2, g)
+    nu = max(1, min(d0 - 1, d0 // 2 + delta))
+    nd = d0 - nu
+    c1 = gs - s * Fr(sigma) * ms * R * nu
+    c2 = ge - s * Fr(sigma) * ms * R * nd
+    gm = max(c1, c2) if s > 0 else min(c1, c2)
+    gm = max(-mg, min(mg, gm))
+    A = ((gs + gm) / 2 * nu + (gm + ge) / 2 * nd) * R * (1 + Fr(offset))
+    return gs, ge, A
+
+
+def gen_cross(rng, tier):
+    for _ in range(100):
+        MG, MS, R = make_system(rng)
+        mg, ms = Fr(99, 100) * MG, Fr(99, 100) * MS
+        s = rng.choice([-1, 1])
+        f = rng.choice([0.99, rng.uniform(0.3, 0.99), rng.uniform(0.8, 0.99)])
+        lam = rng.choice([1.0, 1.0, 1.0, rng.uniform(0.4, 1.0), rng.uniform(0.9, 1.0)])
+        lin = max(2, math.ceil(f * float(mg) / float(ms * R)))
+        if lin > 40:
+            continue
+        d0 = rng.randint(lin + 1, 5 * lin + 4)
+        gs, ge, A = cross_case(MG, MS, R, s, f, lam, rng.randint(0, 1), d0, rng.choice([0, 0, 0, 1, -1]),
+                               rng.choice([0.9, 0.97, 0.99, 0.995, 0.999, 0.9999]),
+                               rng.choice([0, 0, 1e-6, -1e-6, -1e-4, 1e-4, -1e-3, -1e-2]))
+        if not ceil_args_safe(MG, MS, R, gs, ge):
+            continue
+        return _finish_case('cross', 'equal' if gs == ge else 'same-sign', MG, MS, R, gs, ge, A)
+    raise RuntimeError('generator starved')
+
+
+def scan_cross(rng, n_systems):
+    """systematic scan of the cross family (thorough tier): equal ends, every total duration between the end of the
+    linear search and five times it, both signs, several end-point levels and slopes"""
+    out = []
+    for _ in range(n_systems):
+        for _try in range(100):
+            MG, MS, R = make_system(rng)
+            mg, ms = Fr(99, 100) * MG, Fr(99, 100) * MS
+            if 2.5 <= float(mg / (ms * R)) <= 9:
+                break
+        for f in (0.35, 0.5, 0.65, 0.8, 0.9, 0.947, 0.99):
+            lin = max(2, math.ceil(f * float(mg) / float(ms * R)))
+            for s in (-1, 1):
+                for d0 in range(lin + 1, 5 * lin + 3):
+                    for sigma in (0.97, 0.9995):
+                        gs, ge, A = cross_case(MG, MS, R, s, f, 1.0, 0, d0, 0, sigma, 0)
+                        if ceil_args_safe(MG, MS, R, gs, ge):
+                            out.append(_finish_case('scan-cross', 'equal', MG, MS, R, gs, ge, A))
+    return out
+
+
+def gen_onestep(rng, tier):
+    """a long ramp close to the slew limit followed (or preceded) by a ONE-raster-step ramp: the only feasible split of the
+    shortest duration has a single-step ramp at one end"""
+    for _ in range(200):
+        MG, MS, R = make_system(rng)
+        mg, ms = Fr(99, 100) * MG, Fr(99, 100) * MS
+        step = ms * R
+        n_long = rng.randint(2, max(3, min(60, int(2 * float(mg / step)) - 1)))
+        sigma = Fr(rng.choice([0.95, 0.98, 0.995, 0.999]))
+        sdir = rng.choice([-1, 1])
+        # long ramp from g0 to gm, then one step from gm to g1
+        span = sigma * step * n_long
+        if span >= 2 * mg:
+            continue
+        lo = -mg if sdir > 0 else -mg + span
+        hi = mg - span if sdir > 0 else mg
+        g0 = Fr(round(rng.uniform(float(lo), float(hi))))
+        gm = g0 + sdir * span
+        g1 = gm + rng.choice([-1, 1]) * Fr(rng.uniform(0.05, 0.98)) * step
+        g1 = Fr(round(max(-mg, min(mg, g1))))
+        if abs(gm) > mg or g1 == gm:
+            continue
+        A = ((g0 + gm) / 2 * n_long + (gm + g1) / 2 * 1) * R * (1 + Fr(rng.choice([0, 0, -1e-6, 1e-6, -1e-4])))
+        gs, ge = (g0, g1) if rng.random() < 0.5 else (g1, g0)       # single step last / first
+        if not ceil_args_safe(MG, MS, R, gs, ge):
+            continue
+        return _finish_case('onestep', 'last' if gs == g0 else 'first', MG, MS, R, gs, ge, A)
+    raise RuntimeError('generator starved')
+
+
+def corpus(tier='quick'):
     """the fixed zoo of tests/test_make_extended_trapezoid_area.py on a default-like system (limits rounded to
     multiples of 100 so that 99% of them is exactly representable) and on the true default system (non-limit entries)"""
     cs = []
@@ -187,10 +288,30 @@ def corpus():
            (-lim, 0, 1), (-lim, 0, -1), (0, 100000, 1), (0, 100000, -1), (0, -100000, 1), (0, -100000, -1),
            (0, 90000, Fr('0.45')), (0, 90000, Fr('-0.45')), (0, -90000, Fr('0.45')), (0, -90000, Fr('-0.45')),
            (lim, lim, 1), (lim, lim, -1), (lim, -lim, 0), (0, 0, 0)]
+    if tier == 'quick':
+        # the 600-raster cases cost seconds in the exact model (the rescan is quadratic): one of them stays in the quick tier
+        zoo = [z for z in zoo if abs(Fr(z[2])) < 10000 or z == (0, 0, 10000)]
     for gs, ge, A in zoo:
         cs.append({'kind': 'corpus', 'rel': 'zoo', 'MG': str(MG), 'MS': str(MS), 'R': '1/100000',
                    'gs': dstr(Fr(gs)), 'ge': dstr(Fr(ge)), 'A': dstr(Fr(A))})
-    for gs, ge, A in zoo[:14] + zoo[22:30]:
+    # dead space ABOVE the linear range (found by an independent author on the unrepaired source: 18 steps returned,
+    # the ramp pair 8 + 8 exists); Opts(max_grad=10 mT/m, max_slew=200 T/m/s); repaired in /repo by 7df2246
+    for gs, A in (('-3991189/10', '-497/50'), ('3991189/10', '497/50')):
+        cs.append({'kind': 'corpus', 'rel': 'dead-space-above-linear-range', 'MG': '425760', 'MS': '8515200000',
+                   'R': '1/100000', 'gs': gs, 'ge': gs, 'A': A})
+    # one-step second ramp after a long ramp near the slew limit (shortest pair 21 + 1), default system
+    for gs, ge, A in (('-700000', '845000', '3833/200'), ('700000', '-845000', '-3833/200'), ('845000', '-700000', '3833/200')):
+        cs.append({'kind': 'corpus', 'rel': 'one-step-ramp', 'MG': '1703040', 'MS': '7237920000', 'R': '1/100000',
+                   'gs': gs, 'ge': ge, 'A': A})
+    # raster that is not a whole number of microseconds
+    for gs, ge, A in (('0', '0', '13/10'), ('-500000', '850000', '-4/5'), ('-380000', '-380000', '-6')):
+        cs.append({'kind': 'corpus', 'rel': 'raster-6.4us', 'MG': '1277300', 'MS': '4257600000', 'R': '64/10000000',
+                   'gs': gs, 'ge': ge, 'A': A})
+    # both ends negative with different magnitudes, small negative area
+    for gs, ge, A in (('-842985', '-1601671', '-180'), ('-1601671', '-842985', '-180'), ('-842985', '-1601671', '-60')):
+        cs.append({'kind': 'corpus', 'rel': 'both-negative', 'MG': '1703000', 'MS': '7237920000', 'R': '1/100000',
+                   'gs': gs, 'ge': ge, 'A': A})
+    for gs, ge, A in [z for z in zoo if abs(Fr(z[2])) <= 100 and abs(Fr(z[0])) < lim and abs(Fr(z[1])) < lim]:
         cs.append({'kind': 'corpus', 'rel': 'zoo-default', 'MG': '1703040', 'MS': '7237920000', 'R': '1/100000',
                    'gs': dstr(Fr(gs)), 'ge': dstr(Fr(ge)), 'A': dstr(Fr(A))})
     return cs
@@ -528,7 +649,7 @@ def process(ctx, c, rng, n_find):
     ctx.count('ends.' + c['rel'])
     ctx.count('domain.' + ('in' if dom else 'out'))
     ctx.count('class.' + res['cls'])
-    ctx.count('raster_us.%d' % round(R * 10 ** 6))
+    ctx.count('raster_us.%g' % float(R * 10 ** 6))
     nontrivial = False
     if res['cls'] == 'OK':
         Di = D if D is not None else round(Fr(res['tt'][-1]) / R)
@@ -553,6 +674,12 @@ def process(ctx, c, rng, n_find):
         return res, ok
     mres = parse_run(ctx.model([model_run_line(c)])[0])
     same = compare_run(ctx, c, res, mres, ok, D)
+    if mres.get('cls') == 'OK' and mres['D'] > mres['lin_max'] and \
+            (ctx.tier == 'thorough' or c['kind'] in ('cross', 'scan-cross', 'corpus', 'shape', 'onestep')):
+        # evidence that the generator reaches dead spaces ABOVE the linear range: the search without the rescan
+        # (model function eta_old = the source before repair 7df2246) would have returned a longer gradient
+        old = parse_run(ctx.model(['eta.old %s %d %d' % (args_tok(c), FUEL_D, FUEL_B)])[0])
+        ctx.count('rescan.' + ('shortened_result' if old.get('cls') == 'OK' and old['D'] > mres['D'] else 'no_effect'))
     if res.get('closure') is not None and n_find > 0:
         ds = sorted({d for d, _ in res['probes']})
         if len(ds) > 3:
@@ -574,10 +701,20 @@ def run(ctx):
     rng = ctx.rng('cases')
     brng = ctx.rng('boundary')
     frng = ctx.rng('find')
-    n_cases = {'quick': 330, 'thorough': 12000}[ctx.tier]
-    n_bound = {'quick': 30, 'thorough': 800}[ctx.tier]
-    cases = corpus() + [gen_case(rng, ctx.tier) for _ in range(n_cases)]
-    cases += [gen_case(brng, ctx.tier, boundary=True) for _ in range(n_bound)]
+    xrng = ctx.rng('cross')
+    orng = ctx.rng('onestep')
+    n_cases = {'quick': 200, 'thorough': 7000}[ctx.tier]
+    n_cross = {'quick': 50, 'thorough': 2500}[ctx.tier]
+    n_one = {'quick': 20, 'thorough': 800}[ctx.tier]
+    n_bound = {'quick': 15, 'thorough': 500}[ctx.tier]
+    gen = [gen_case(rng, ctx.tier) for _ in range(n_cases)]
+    gen += [gen_cross(xrng, ctx.tier) for _ in range(n_cross)]
+    gen += [gen_onestep(orng, ctx.tier) for _ in range(n_one)]
+    gen += [gen_case(brng, ctx.tier, boundary=True) for _ in range(n_bound)]
+    if ctx.tier == 'thorough':
+        gen += scan_cross(ctx.rng('scan'), 4)
+    ctx.rng('order').shuffle(gen)            # the time budget must not starve one family
+    cases = corpus(ctx.tier) + gen
     for i, c in enumerate(cases):
         if ctx.out_of_time():
             ctx.notes.append('time budget reached after %d cases' % i)
